@@ -393,6 +393,15 @@ def with_failed_push(inner, maxk=8):
     return scen
 
 
+def with_refused_pushes(inner, first=1):
+    """Every push command of the run fails (the git host is down or refuses everything), for as
+    long as the scenario lasts; the retry budget is exhausted at the first failure."""
+    def scen(s, choose):
+        s.set_refuse_pushes(first)
+        return inner(s, choose)
+    return scen
+
+
 def scen_expect(events, expected):
     """Play the events; the job outcomes must be the expected ones (deterministic histories:
     green builds, no conflicts)."""
@@ -1016,6 +1025,9 @@ def family(prop, tier):
                                     ('eval_pr', 2)],
                             HELD + [('comment', 2, 'admin', '@robot bypass_jira_check'), ('eval_pr', 2)], EV1)))
         out.append(_indep_author_options('C10'))
+        out.append(_cfg('conv:noqueue:F:host-down', 'converge noqueue: every push fails (git host down) for the whole history',
+                        F, [P1], 'noqueue', with_refused_pushes(scen_converge([], EV1)), expect_outcomes=['PushFailed'],
+                        signame='converge while pushes fail', sample_mod=1))
         out.append(_cfg('conv:queue:F:declined', 'converge queue: evaluated then declined',
                         F, [P1], 'queue', scen_converge([EV1, ('decline', 1)], EV1)))
         if tier == 'thorough':
@@ -1148,6 +1160,19 @@ def family(prop, tier):
                         scen_expect([('eval_pr', 12), EV1, ('eval_queues',)], ['Queued', 'Queued', 'Merged']),
                         green=True, no_conflicts=True, signame='pull request ids'))
     elif prop == 'C09':
+        jira = dict(jira_account_url='http://jira', jira_email='robot@x', jira_token='t', jira_keys=['PROJ'],
+                    prefixes={'Bug': 'bugfix'}, disable_version_checks=False, required_peer_approvals=1)
+        TK = 'PROJ-7'
+        out.append(_cfg('stabgone:noqueue:E', 'the expected fix versions follow the branches that exist now: evaluated while '
+                        'stabilization/4.3.18 exists (4.3.19 expected), the stabilization branch is deleted, evaluated again '
+                        '(4.3.18 expected), the ticket is corrected, evaluated again', E,
+                        [(1, 'bugfix/PROJ-7', 'development/4.3')], 'noqueue',
+                        scen_expect([('approvals', 1, []), ('jira_set', TK, 'Bug', ['4.3.19', '5.1.0']), EV1,
+                                     ('ref_delete', 'stabilization/4.3.18'), EV1,
+                                     ('jira_set', TK, 'Bug', ['4.3.18', '5.1.0']), EV1],
+                                    ['ApprovalRequired', 'IncorrectFixVersion', 'ApprovalRequired']),
+                        settings=jira, tags=['4.3.17'], green=True, no_conflicts=True, sample_mod=1,
+                        expect_outcomes=['ApprovalRequired', 'IncorrectFixVersion'], signame='fix versions after a release'))
         out.append(_cfg('cachetags:noqueue:E', 'a release tag seen by an earlier job is deleted on the host: the cascade of '
                         'the next job is computed from the tags that exist', E, [PS], 'noqueue',
                         scen_cache_independent([EV1, ('tag_delete', '4.3.18')], EV1),
